@@ -1,5 +1,5 @@
 HOOK_COMMITS = ["1ae5c62"]
-FIX_COMMITS = ["42a7f6e", "a52dade", "29629a0", "222b812", "c889ba9"]
+FIX_COMMITS = ["42a7f6e", "a52dade", "29629a0", "222b812", "c889ba9", "a52fe2a", "ab3e688"]
 
 ENGINES = [
     {"name": "stack", "path": "harness/internal/stack", "serves_properties": ["C01", "C02"], "kind_free_text": "in-process server: real disk cache + HTTP handler on loopback TCP behind a ServeMux + gRPC over bufconn with panic-recording interceptors"},
@@ -10,7 +10,21 @@ ENGINES = [
 _PBT = "property-based testing (pgregory.net/rapid): "
 
 CLAIMS = {
-    "C06": dict(
+    "C09": dict(
+        technique=_PBT + "generated directory populations (independent format writer, Chtimes access times) with order / fit / content / accounting oracles on the restarted instance",
+        text="Populations of 0..30 entries mixing the current layout in both storage modes, legacy flat and two-level ac/ cas/ raw/ layouts, duplicate files per key, lost+found and .DS_Store clutter, with a drawn permutation of access times and a new max_size above / equal to / below the rounded total or below the largest file; disk.New must succeed, keep one survivor per key (the most recently accessed), evict only entries older than every survivor, keep the survivors within max_size (and, without duplicates, evict no more than the surplus), serve every survivor unchanged through the new mode's reader, and have Stats and the directory match the index; later uploads evict the survivors in atime order.",
+        note="tmpfs honours Chtimes; files are not read between Chtimes and start-up. .DS_Store inside a two-hex-digit leaf directory is not generated (the README does not promise it).",
+    ),
+    "C12": dict(
+        technique=_PBT + "fault injection: generated backend fault scripts (stage x byte offset x size metadata) against a scripted cache.Proxy, the real httpproxy and the real grpcproxy, with an exact-content-or-miss oracle and resource-leak oracles",
+        text="For every generated (storage mode, kind, blob, size known/unknown, read path, fault) the client sees the backend's exact bytes and size, a miss or an error; the next fault-free read is a hit with exact bytes and is then served locally; afterwards reserved = 0, directory = index, no descriptor points into the cache directory, no backend stream or connection stays open and no goroutine is parked in request frames. Fault-free: every accepted upload reaches the backend exactly once with the right metadata and a peer cache in the same mode (other codec) recovers the identical blob from it.",
+        note="S3/GCS/Azure SDK fault paths are reached only through the shared disk layer (scripted proxy); the fault-free S3 path is exercised in C20's naming test. Content faults of equal length on headerless entries are outside the statement's trust model. Waiting for an aborted request to unwind is bounded (5 s) and a goroutine that stays parked is reported as a leak.",
+    ),
+    "C20": dict(
+        technique=_PBT + "differential against an independent implementation of the cas.v2 format (both directions), byte-exact golden files, and a pinned reference naming function observed at recording backends",
+        text="Read side: files produced by the harness's own writer with chunk sizes 4 KiB..4 MiB, several encoders/levels/checksum settings and arbitrary suffixes (plus header+identity, .v1, ac, raw files) must be served correctly by this build in both modes and codecs at offsets around the file's own chunk edges. Write side: every file this build writes, and every object it hands to a backend, must parse with the independent reader bit-exactly, decode chunk by chunk and as one plain zstd stream (two decoders) to the original, and be named per the v2 grammar. Naming: object / resource names recorded at an HTTP server, an in-process S3 (gofakes3) and a gRPC backend equal the pinned 2.x function (incl. unclean prefixes joined with path.Join) and are injective.",
+        note="Azure object names are not observed (its constructor hard-wires the account URL); GCS shares the HTTP proxy code. Two hand-assembled golden files guard the independent codec against symmetric mistakes.",
+    ),    "C06": dict(
         technique=_PBT + "differential against the harness's own reference traversal of the REAPI message (MUST-HIT / MUST-MISS) over generated ActionResult shapes x per-blob presence states; LRU-position oracle for 'a hit is a use'",
         text="Generated ActionResults (0..45 output files crossing the internal batch of 20, inline/by-digest mixes, Trees with root and child files, stdout/stderr digest/raw/both, empty-blob and duplicate references) with a drawn state per referenced blob (local, backend-only, absent, wrong stated size), with and without a scripted backend, uploaded over gRPC or HTTP and looked up over gRPC GetActionResult, HTTP GET and HTTP HEAD: hit iff the harness's traversal finds every reference present; misses are NOT_FOUND/404 only; after a hit every locally held referenced blob is more recent in the LRU order than fillers uploaded before the lookup.",
         note="'Evicted by earlier traffic' is represented by the absent state. Recency is read from the index snapshot hook (C05 establishes that eviction follows that order). Malformed Tree blobs are C14's.",
@@ -64,4 +78,4 @@ CLAIMS = {
 }
 
 _TODO = "check not built yet in this session (claimed once its check exists); technique applies"
-NOT_APPLICABLE = {p: _TODO for p in ["C07", "C08", "C09", "C12", "C13", "C14", "C17", "C19", "C20"]}
+NOT_APPLICABLE = {p: _TODO for p in ["C07", "C08", "C13", "C14", "C17", "C19"]}
